@@ -439,7 +439,7 @@ def r54(ctx):
         # Ok must not be returned on the filter==Error edge (unless also reachable otherwise: check exclusive)
         other = mv.result_edges(bi, c, "ok" if is_ne else "err")
         live_if_error = mv.reach(0, cut_edges=other)
-        bad = [r for r in mv.return_sites() if r["kind"] == "ok" and r["block"] in live_if_error]
+        bad = [r for r in mv.return_sites() if r["kind"] == "ok" and R.site_block(r) in live_if_error]
         ctx.ob("R5.4", not bad, f"{mb.name}/error-means-err", "policy errors can be downgraded although the filter says Error",
                where=f"{mb.file}:{c.line}", sample="filter == Error  =>  Err(policy_error)")
     # the default filter has no rules
